@@ -7,7 +7,7 @@
 (*   quiesce idle          end of the behaviour; idle = no worker exists      *)
 EXTENDS TraceKit
 
-VARIABLES l, viol, cnt, attempts, started, ended, running, closeRet
+VARIABLES pos, viol, cnt, attempts, started, ended, running, closeRet
 
 \* attempts: <<op, accepted, attempted after GracefulClose returned, kind>>; the waiter items of
 \* Done are pion's own closures: they are not seen starting or ending, their run is witnessed by
@@ -34,17 +34,17 @@ Preds(e) ==
    P("C05", "RunsEverythingAccepted", e.ev = "quiesce" /\ e.idle, AcceptedOps \subseteq ended)
   }
 
-Init == /\ l = 1 /\ viol = {} /\ cnt = EmptyCount
+Init == /\ pos = 1 /\ viol = {} /\ cnt = EmptyCount
         /\ attempts = <<>> /\ started = <<>> /\ ended = {} /\ running = {} /\ closeRet = FALSE
 
 Step ==
-  /\ l <= Len(Trace)
-  /\ LET e == Trace[l] IN
+  /\ pos <= Len(Trace)
+  /\ LET e == Trace[pos] IN
        IF e.ev = "reset"
        THEN /\ attempts' = <<>> /\ started' = <<>> /\ ended' = {} /\ running' = {} /\ closeRet' = FALSE
             /\ UNCHANGED <<viol, cnt>>
        ELSE LET ps == Preds(e) IN
-            /\ viol' = Merge(viol, Failures(ps, e, l))
+            /\ viol' = Merge(viol, Failures(ps, e, pos))
             /\ cnt'  = Count(cnt, ps)
             /\ attempts' = IF e.ev = "enq" THEN Append(attempts, <<e.op, e.acc, closeRet, e.kind>>) ELSE attempts
             /\ started'  = IF e.ev = "start" THEN Append(started, e.op) ELSE started
@@ -55,9 +55,9 @@ Step ==
                              [] e.ev = "ret" /\ e.fn = "Done" /\ e.enqueued -> ended \cup {WaitOp(e.who)}
                              [] OTHER -> ended
             /\ closeRet' = (closeRet \/ (e.ev = "ret" /\ e.fn = "GracefulClose"))
-  /\ l' = l + 1
+  /\ pos' = pos + 1
 
-Done == l = Len(Trace) + 1 /\ UNCHANGED <<l, viol, cnt, attempts, started, ended, running, closeRet>>
+Done == pos = Len(Trace) + 1 /\ UNCHANGED <<pos, viol, cnt, attempts, started, ended, running, closeRet>>
 Next == Step \/ Done
-Rep  == Report(l, viol, cnt)
+Rep  == Report(pos, viol, cnt)
 =============================================================================
